@@ -63,8 +63,10 @@ def bind_repo():
 def fresh_world():
     """Every case starts from library defaults so that nothing (incl. /repo/.pybc.toml) leaks between cases."""
     from py_ballisticcalc import PreferredUnits, reset_globals
-    from mc import hist as _hist
-    _hist.restore_pristine()
+    # Deliberately NOT hist.restore_pristine(): whatever else the library keeps at module / class level is carried from case to case within a
+    # worker, so the cases one worker runs form one long operation history (state that leaks between unrelated computations shows up in a
+    # later case). A violation records the cases its worker ran before it (prior_cells) so that the replay meets the same history. Checks
+    # whose executions must be replayable one by one (C10 schedules and histories) restore the pristine state themselves.
     PreferredUnits.defaults()
     reset_globals()
 
@@ -95,10 +97,15 @@ _FUNCS = {}
 _BUDGETS = {}      # per-part watchdog overrides (seconds), declared by a check module as BUDGETS = {'part': seconds}
 
 
+_WORKER_LOG = []      # (part, cell) of the cases this process has run so far
+
+
 def _run_cell(job):
     part, idx, cell = job
     fn = _FUNCS[part]
     t0 = time.time()
+    prior = list(_WORKER_LOG[-400:])
+    _WORKER_LOG.append((part, cell))
     signal.signal(signal.SIGALRM, _alarm)
     signal.alarm(int(_BUDGETS.get(part, CASE_BUDGET_S)))
     try:
@@ -118,6 +125,8 @@ def _run_cell(job):
     finally:
         signal.alarm(0)
     res['_t'] = time.time() - t0
+    if res.get('v') and prior:
+        res['_prior'] = prior
     return part, idx, res
 
 
@@ -178,6 +187,8 @@ class Ctx:
             self.obs.add(json.dumps([part, res['obs']], sort_keys=True, default=str))
         for v in res.get('v', []):
             p['violations'] += 1
+            if res.get('_prior') and v.get('replay_cell') is None:
+                v = dict(v, _prior=res['_prior'])
             self.violation(part, cell, v)
         for extra_k, extra_v in (res.get('extra') or {}).items():
             if isinstance(extra_v, (int, float)):
@@ -274,8 +285,12 @@ class Ctx:
         for part, cell, v in self.viol:
             if v.get('replay_cell') is not None:      # a minimal case (e.g. one schedule) inside a multi-case cell
                 part, cell = v.get('replay_part', part), v['replay_cell']
+            prior = v.pop('_prior', None) if isinstance(v, dict) else None
             rec = {'property': self.pid, 'part': part, 'cell': cell, 'violation': v, 'tier': self.tier,
                    'replay_cmd': f'./check --replay <this file>'}
+            if prior:
+                # the cases the same worker process ran before this one (library state at module level is carried between cases)
+                rec['prior_cells'] = [[p_, c_] for p_, c_ in prior]
             blob = json.dumps(rec, sort_keys=True, default=str)
             h = hashlib.sha256(json.dumps([part, cell], sort_keys=True, default=str).encode()).hexdigest()[:12]
             if h in seen_sig:
@@ -389,19 +404,30 @@ def run_check(pid, tier, seed):
         print(f'ERROR harness: {e}')
         return 2
     ctx = Ctx(mod, tier, seed)
+    aborted = []
+    # a part that cannot be evaluated (e.g. the seam it observes through is gone) is abandoned after a few cases; the other parts still run:
+    # concrete violations they find stand on their own, and without any the check ends with exit 2 and no verdict
     try:
         for part, cells in mod.plan(tier):
-            ctx.run_part(part, cells)
+            try:
+                ctx.run_part(part, cells)
+            except HarnessError as e:
+                print(f'ERROR harness: {e}')
+                aborted.append(str(e))
+                close_pool()
         if hasattr(mod, 'explore'):
             mod.explore(ctx)
         if hasattr(mod, 'summarize'):
             mod.summarize(ctx)
     except HarnessError as e:
         print(f'ERROR harness: {e}')
+        aborted.append(str(e))
         close_pool()
+    if aborted:
         if not ctx.viol:
             return 2
-        ctx.harness_errors.append(('-', None, str(e)))
+        for a in aborted:
+            ctx.harness_errors.append(('-', None, a))
     rc = ctx.finish(info)
     close_pool()
     return rc
@@ -412,6 +438,12 @@ def replay(path):
     info = bind_repo()
     mod = load_check(rec['property'])
     part, idx, res = _run_cell((rec['part'], 0, rec['cell']))
+    if not res.get('v') and rec.get('prior_cells'):
+        # not reproduced from a fresh process: replay the history of the worker that found it (its earlier cases, in order), then the case
+        print(f"not reproduced from a fresh library state; replaying the {len(rec['prior_cells'])} earlier case(s) of the worker first")
+        for p_, c_ in rec['prior_cells']:
+            _run_cell((p_, 0, c_))
+        part, idx, res = _run_cell((rec['part'], 0, rec['cell']))
     print(f"replay property={rec['property']} part={part} bound_to={info['repo']}")
     print('cell:', json.dumps(rec['cell'], default=str)[:2000])
     if res.get('harness_error'):
